@@ -1,14 +1,14 @@
 #!/bin/sh
 # Maintenance tool: confirms the round-4 seeds in their scratch worktrees (changed build passes ctest; demo exits 1 with the change, 0 without)
 for id in "$@"; do
-    wt=/tmp/seed4_$id
+    wt=/tmp/${SEEDPFX:-seed4}_$id
     [ -d "$wt/demo" ] || { echo "$id no-demo"; continue; }
     # the worktree must still carry exactly the stored patch
-    git -C "$wt" diff -- src > /tmp/seed4_$id.cur.diff
-    same=no; cmp -s /tmp/seed4_$id.cur.diff "$wt/demo/patch.diff" && same=yes
+    git -C "$wt" diff -- src > /tmp/${SEEDPFX:-seed4}_$id.cur.diff
+    same=no; cmp -s /tmp/${SEEDPFX:-seed4}_$id.cur.diff "$wt/demo/patch.diff" && same=yes
     cmake --build "$wt/_build" -j16 >/dev/null 2>&1; b=$?
-    (cd "$wt/_build" && ctest -j16 --timeout 900 > /tmp/seed4_$id.ctest.log 2>&1)
-    t=$(grep -E "tests passed" /tmp/seed4_$id.ctest.log | head -1)
+    (cd "$wt/_build" && ctest -j16 --timeout 900 > /tmp/${SEEDPFX:-seed4}_$id.ctest.log 2>&1)
+    t=$(grep -E "tests passed" /tmp/${SEEDPFX:-seed4}_$id.ctest.log | head -1)
     sh "$wt/demo/demo.sh" "$wt/_build/uncrustify" >/dev/null 2>&1; d1=$?
     sh "$wt/demo/demo.sh" "$wt/_build_orig/uncrustify" >/dev/null 2>&1; d0=$?
     echo "$id patch-matches-worktree=$same build=$b ctest='$t' demo_changed=$d1 demo_original=$d0"
